@@ -17,7 +17,7 @@ def curL : CPc → Option Nat
   | _ => none
 
 def lateC : CPc → Bool
-  | .wgWait | .hooksStop | .returned => true
+  | .wgWait | .wgBlocked | .hooksStop | .returned | .panicked => true
   | _ => false
 
 def afterWait : CPc → Bool
@@ -131,6 +131,11 @@ theorem inv_setH (order : List Nat) (s : Sys) (i : Nat) (h h' : H) (wg' : Nat) (
       subst hu; exact hh
     · exact hI.hinv j u hu
 
+/-- the wait group's waiter bookkeeping is not part of the invariant -/
+theorem inv_waitFlags (order : List Nat) (s : Sys) (w r : Bool) (hI : Inv order s) :
+    Inv order { s with waiting := w, released := r } :=
+  ⟨hI.count, hI.waitLate, hI.lateTodo, hI.lis, hI.cur, hI.hinv⟩
+
 theorem good_mono (h h' : H) (hv : h'.ver = h.ver) (ho : ∀ o ∈ h.out, o ∈ h'.out)
     (hp : h.peerClosed = true → h'.peerClosed = true) (hg : good h) : good h' := by
   intro hv5
@@ -239,13 +244,17 @@ theorem inv_stepHandler (order : List Nat) (s : Sys) (i : Nat) (hI : Inv order s
         · exact Or.inr a5
     | wgDone =>
       simp only
-      apply inv_setH order s i h _ _ hI hi
-      · have := count_pos s.hs i h hi (by simp [hpc, HPc.counted])
-        have hc := hI.count
-        simp [hpc, HPc.counted]
-        omega
-      · obtain ⟨a1, a2, a3, a4, a5, a6, a7, a8, a9, a10⟩ := hh
-        hinv_auto
+      have hstep := inv_setH order s i h { h with pc := .finished } (s.wg - 1) hI hi
+        (by
+          have := count_pos s.hs i h hi (by simp [hpc, HPc.counted])
+          have hc := hI.count
+          simp [hpc, HPc.counted]
+          omega)
+        (by
+          obtain ⟨a1, a2, a3, a4, a5, a6, a7, a8, a9, a10⟩ := hh
+          clear same
+          hinv_auto)
+      exact inv_waitFlags order _ _ _ hstep
     | finished => exact hI
 
 theorem inv_peerClose (order : List Nat) (s : Sys) (i : Nat) (hI : Inv order s) :
@@ -312,6 +321,45 @@ theorem inv_closerSet (order : List Nat) (s s' : Sys) (c : Nat) (h h' : H) (hI :
       subst hu; exact h7 (hI.hinv c h hi)
     · rename_i hij
       exact h6 j u hu (fun e => hij e.symm) (hI.hinv j u hu)
+
+/-- `Wait` returns (at once, or after the release) with the counter at 0 -/
+theorem inv_waitReturn (order : List Nat) (s s' : Sys) (hI : Inv order s) (hz : s.wg = 0)
+    (hlate : lateC s.cpc = true)
+    (hhs : s'.hs = s.hs) (hwg : s'.wg = s.wg) (hcpc : s'.cpc = .hooksStop) (hwp : s'.waitPassed = true)
+    (htodo : s'.todoL = s.todoL) (hsnap : s'.snapshotted = s.snapshotted)
+    (hen : s'.ended = s.ended ∧ s'.netClosed = s.netClosed) : Inv order s' := by
+  have hcur : curL s.cpc = none := by
+    revert hlate; cases s.cpc <;> simp [curL, lateC]
+  have hpend : ∀ l, pendingFor s.cpc l = [] := by
+    intro l; revert hlate; cases s.cpc <;> simp [pendingFor, lateC]
+  have hnostop : ∀ l c todo, s.cpc ≠ .discStop l c todo := by
+    intro l c todo h; rw [h] at hlate; simp [lateC] at hlate
+  refine inv_closerShared order s s' hI hhs hwg ?_ ?_ ?_ ?_ ?_
+  · simp [hcpc, hwp, afterWait]
+  · intro _; rw [htodo]; exact hI.lateTodo hlate
+  · intro l' hl'
+    rcases hI.lis l' hl' with h | h | h
+    · exact Or.inl (htodo ▸ h)
+    · rw [hcur] at h; exact absurd h (by simp)
+    · exact Or.inr (Or.inr (by rw [hsnap, hen.1, hen.2]; exact h))
+  · simp [hcpc, curL]
+  · intro i h hi hh
+    have hcnt := hI.count
+    rw [hz] at hcnt
+    have hnc : h.pc.counted = false := by
+      have := (List.countP_eq_zero.1 hcnt.symm) h (List.mem_iff_getElem?.2 ⟨i, hi⟩)
+      simpa using this
+    obtain ⟨a1, a2, a3, a4, a5, a6, a7, a8, a9, a10⟩ := hh
+    rw [hwp, hsnap, hcpc]
+    refine ⟨a1, fun _ _ => rfl, a3, a4, a5, a6, ?_, ?_, a9, ?_⟩
+    · intro _ hab
+      have := a3 hab
+      simpa [afterAdd, hnc] using this
+    · intro hr hl
+      rcases a8 hr hl with h1 | h1
+      · exact Or.inl h1
+      · rw [hpend] at h1; exact absurd h1 (by simp)
+    · intro l todo he; simp at he
 
 theorem inv_stepCloser (order : List Nat) (s : Sys) (hI : Inv order s) : Inv order (stepCloser s) := by
   unfold stepCloser
@@ -548,10 +596,11 @@ theorem inv_stepCloser (order : List Nat) (s : Sys) (hI : Inv order s) : Inv ord
     split
     · rename_i hz
       have hz : s.wg = 0 := by simpa using hz
-      refine inv_closerShared order s _ hI ?_ ?_ ?_ ?_ ?_ ?_ ?_
+      exact inv_waitReturn order s _ hI hz (by simp [hc, lateC]) rfl rfl rfl rfl rfl rfl ⟨rfl, rfl⟩
+    · refine inv_closerShared order s _ hI ?_ ?_ ?_ ?_ ?_ ?_ ?_
       · rfl
       · rfl
-      · simp [afterWait]
+      · have := hI.waitLate; simpa [hc, afterWait] using this
       · intro _; exact hI.lateTodo (by simp [hc, lateC])
       · intro l' hl'
         rcases hI.lis l' hl' with h | h | h
@@ -560,16 +609,29 @@ theorem inv_stepCloser (order : List Nat) (s : Sys) (hI : Inv order s) : Inv ord
         · exact Or.inr (Or.inr h)
       · simp [curL]
       · intro i h hi hh
-        have hcnt := hI.count
-        rw [hz] at hcnt
-        have hnc : h.pc.counted = false := by
-          have := (List.countP_eq_zero.1 hcnt.symm) h (List.mem_iff_getElem?.2 ⟨i, hi⟩)
-          simpa using this
         obtain ⟨a1, a2, a3, a4, a5, a6, a7, a8, a9, a10⟩ := hh
         constructor <;> (try (simp_all [pendingFor]; done))
-        intro _ hab
-        have := a3 hab
-        simpa [afterAdd, hnc] using this
+  | wgBlocked =>
+    simp only
+    split
+    · split
+      · rename_i hz
+        have hz : s.wg = 0 := by simpa using hz
+        exact inv_waitReturn order s _ hI hz (by simp [hc, lateC]) rfl rfl rfl rfl rfl rfl ⟨rfl, rfl⟩
+      · refine inv_closerShared order s _ hI ?_ ?_ ?_ ?_ ?_ ?_ ?_
+        · rfl
+        · rfl
+        · have := hI.waitLate; simpa [hc, afterWait] using this
+        · intro _; exact hI.lateTodo (by simp [hc, lateC])
+        · intro l' hl'
+          rcases hI.lis l' hl' with h | h | h
+          · exact Or.inl h
+          · simp [hc, curL] at h
+          · exact Or.inr (Or.inr h)
+        · simp [curL]
+        · intro i h hi hh
+          obtain ⟨a1, a2, a3, a4, a5, a6, a7, a8, a9, a10⟩ := hh
+          constructor <;> (try (simp_all [pendingFor]; done))
     · exact hI
   | hooksStop =>
     simp only
@@ -588,6 +650,7 @@ theorem inv_stepCloser (order : List Nat) (s : Sys) (hI : Inv order s) : Inv ord
       obtain ⟨a1, a2, a3, a4, a5, a6, a7, a8, a9, a10⟩ := hh
       constructor <;> (try (simp_all [pendingFor]; done))
   | returned => simp only; exact hI
+  | panicked => simp only; exact hI
 
 theorem inv_closerNext (order : List Nat) (s : Sys) (c : Nat) (hI : Inv order s) : Inv order (closerNext s c) := by
   unfold closerNext
